@@ -482,9 +482,11 @@ def c_fld(o):
             f"{g.ql(o['vals'])}, {g.bl(o['valid'])}, {c_subs(o['subs'])})")
 
 
-def c_field_in(fd):
+def c_field_in(fd, f):
+    """the labels given to the model are the ones the constructed Field carries (defaults included)"""
     m = fd["mesh"]
-    return (f"{g.ql(m['p1'])} {g.ql(m['p2'])} {g.zl(m['n'])} {g.nat(fd['nv'])} {c_optstrs(fd['vdims'])} "
+    eff = None if f.vdims is None else list(f.vdims)
+    return (f"{g.ql(m['p1'])} {g.ql(m['p2'])} {g.zl(m['n'])} {g.nat(fd['nv'])} {c_optstrs(eff)} "
             f"{g.ql(fd['vals'])} {g.bl(fd['valid'])}")
 
 
@@ -525,7 +527,7 @@ def run_grid(c):
     f = build(fd)
     st, rg = attempt(f.to_vtk)
     nd = len(n)
-    head = f"CGrid {g.b(m['exact'])} {g.b(fd['pyth'])} {c_field_in(fd)}"
+    head = f"CGrid {g.b(m['exact'])} {g.b(fd['pyth'])} {c_field_in(fd, f)}"
     if st != "ok":
         if nd == 3:
             rec["oracle"].append("to-vtk-rejected")
@@ -620,7 +622,7 @@ def run_round(c):
     d = newdir()
     path = os.path.join(d, "f.vtk")
     st_w, e_w = attempt(lambda: f.to_file(path, representation=rep, save_subregions=c["save"]))
-    head = (f"CRound {g.b(m['exact'])} {g.b(fd['pyth'])} {g.s(rep)} {c_field_in(fd)} {c_subs(subs)} "
+    head = (f"CRound {g.b(m['exact'])} {g.b(fd['pyth'])} {g.s(rep)} {c_field_in(fd, f)} {c_subs(subs)} "
             f"{g.b(c['save'])}")
     known_rep = rep in ("bin", "bin8", "txt", "xml")
     if st_w != "ok":
@@ -638,9 +640,9 @@ def run_round(c):
         rec["oracle"].append("side-car-presence")
     st_r, r = attempt(lambda: df.Field.from_file(path))
     txt = rep == "txt"
-    if txt and subs and c["save"] and any(float(f"{x:.11g}") != x for cc in fo["coords"] for x in
-                                          [float(v) for a in range(3) for v in np.asarray(
-                                              getattr(f.mesh.vertices, f.mesh.region.dims[a]), dtype=float)]):
+    verts = [float(v) for a in range(3) for v in np.asarray(getattr(f.mesh.vertices, f.mesh.region.dims[a]))] \
+        if nd == 3 else []
+    if txt and subs and c["save"] and any(float(f"{x:.11g}") != x for x in verts):
         # some vertex needs more than the 11 digits the text form keeps
         rec["tags"].append(T_TXTSUB)
     if st_r != "ok":
